@@ -74,16 +74,41 @@ func isInput(ch string) bool {
 	return ch == "in" || (strings.HasPrefix(ch, "in") && len(ch) > 2 && ch[2] >= '0' && ch[2] <= '9')
 }
 
-func isOutput(c Config, ch string) bool {
+// outputsOf returns the channels the consumers received on (whatever the emitted code calls them); when
+// a consumer never got anything, the names the unchanged code uses.
+func outputsOf(c Config, log []vsched.Event) []string {
+	seen := map[string]bool{}
+	var outs []string
+	add := func(site, ch string) {
+		if strings.HasPrefix(site, "cons") && !seen[ch] {
+			seen[ch] = true
+			outs = append(outs, ch)
+		}
+	}
+	for _, e := range log {
+		switch e.Kind {
+		case "recv", "recvc":
+			add(e.Site, e.Ch)
+		case "xfer":
+			add(e.Site2, e.Ch)
+		}
+	}
+	want := 1
+	if c.Sys == "dup" {
+		want = 2
+	}
+	if len(outs) == want {
+		return outs
+	}
 	switch c.Sys {
 	case "fmap", "fmapch":
-		return ch == "fmap.out"
+		return []string{"fmap.out"}
 	case "dup":
-		return ch == "dup.cc1" || ch == "dup.cc2"
+		return []string{"dup.cc1", "dup.cc2"}
 	case "joinsel":
-		return ch == "joinsel.out"
+		return []string{"joinsel.out"}
 	}
-	return ch == "join.out"
+	return []string{"join.out"}
 }
 
 // clocks computes a vector clock for every event of the log: two events are ordered when they share a
@@ -161,6 +186,11 @@ func clocks(log []vsched.Event) (clk [][]int, hb func(a, b int) bool) {
 func CheckLogC19(c Config, log []vsched.Event) []string {
 	var bad []string
 	_, hb := clocks(log)
+	outs := outputsOf(c, log)
+	isOut := map[string]bool{}
+	for _, o := range outs {
+		isOut[o] = true
+	}
 	var inEvents []int
 	inClosed := map[string]bool{}
 	for i, e := range log {
@@ -177,7 +207,7 @@ func CheckLogC19(c Config, log []vsched.Event) []string {
 	}
 	closes := map[string]int{}
 	for i, e := range log {
-		if e.Kind != "close" || !isOutput(c, e.Ch) {
+		if e.Kind != "close" || !isOut[e.Ch] {
 			continue
 		}
 		closes[e.Ch]++
@@ -192,15 +222,6 @@ func CheckLogC19(c Config, log []vsched.Event) []string {
 				break
 			}
 		}
-	}
-	outs := []string{"join.out"}
-	switch c.Sys {
-	case "fmap", "fmapch":
-		outs = []string{"fmap.out"}
-	case "dup":
-		outs = []string{"dup.cc1", "dup.cc2"}
-	case "joinsel":
-		outs = []string{"joinsel.out"}
 	}
 	for _, o := range outs {
 		if closes[o] != 1 {
